@@ -181,4 +181,11 @@ def r3_position_nodes(ctx: Ctx) -> None:
     ctx.check(src == {"self.bus", "BUS_MAPPING[self.rom_type]"} and rets == ["bus"], "Resolver.get_bus", f"the active mapping is the user bus when it has mappings, else BUS_MAPPING[rom_type]; found {sorted(src)}")
 
 
-RULES = [r1_who_may_call, r2_accumulate_then_flush, r3_position_nodes]
+
+def rb_binding_agreement(ctx: Ctx) -> None:
+    from ..ownership import binding_agreement
+
+    binding_agreement(ctx)
+
+
+RULES = [r1_who_may_call, r2_accumulate_then_flush, r3_position_nodes, rb_binding_agreement]
